@@ -11,7 +11,10 @@ Tie: (i) `_getTargetParamIndex`, `_getTargetParamSensIndex`, `_getTargetStateSen
 real objects against the Lean driver (`sensIndex`, `sensToGrad`) exactly, on integer arrays; (ii) DIRECT ORACLE
 (no Lean, no pygom kernels / integrator): `sensitivity`, `gradient`, `sensitivityIV`, `jac` against
 Richardson-extrapolated central differences of (a) the reference cost of C06 (independent DOP853 trajectory at
-1e-12 + scipy.stats log-densities) and (b) pygom's own `cost` / `costIV`.
+1e-12 + scipy.stats log-densities) and (b) pygom's own `cost` / `costIV`; (iii) HISTORY cases (losshist.py, oracle (a)):
+scripts of calls of all eleven entry points on one or two loss objects - sensitivity / gradient / jac / sensitivityIV /
+jacIV / diff_loss / diff_lossIV judged against the reference derivative for the values the object currently holds (the
+state machine `Held` / `step` of Pygom/Props/C06.lean); observations, x0, grid, weights, spreads in float and int containers.
 """
 import json
 import random
@@ -19,19 +22,28 @@ import random
 import numpy as np
 
 from . import losscommon as LC
+from . import losshist as LH
 
 PROP = "C07"
 LEAN = {"module": "Pygom.Props.C07",
         "required": ["Pygom.C07.sens_index_spec", "Pygom.C07.sens_index_spec_IV", "Pygom.C07.grad_is_chain_rule",
                      "Pygom.C07.gradIV_is_chain_rule", "Pygom.C07.grad_is_chain_rule_partial",
                      "Pygom.C07.grad_order_counterexample", "Pygom.C07.model_variant"]}
-BUDGET = {"quick": {"cases": 420, "exact": 40, "per_batch": 12},
-          "thorough": {"cases": 6000, "exact": 300, "per_batch": 20}}
+BUDGET = {"quick": {"cases": 420, "exact": 40, "per_batch": 12, "history": 448},
+          "thorough": {"cases": 6000, "exact": 300, "per_batch": 20, "history": 4800}}
 RULE = ("random bounded models and catalogue models as in C06; theta, x0, grids; 1-3 observed states in any order; target_param "
         "subsets in any order; target_state subsets in any order; five loss classes (non-unit weights for Square and Normal "
         "only, whose cost uses them); integrator methods lsoda / vode / ivode / dopri5 / dop853 on a share of cases; plus "
         "batches of crafted integer arrays for the index helpers and sens_to_grad.  A gradient case is non-trivial when it has "
-        ">= 2 free variables or >= 2 observed states and at least one class was evaluated; an exact batch always is.")
+        ">= 2 free variables or >= 2 observed states and at least one class was evaluated; an exact batch always is.  HISTORY cases "
+        "(losshist.py): scripts of 6-14 operations on one or two loss objects - every ordered pair (e1 in sensitivity / gradient / "
+        "jac / sensitivityIV / jacIV / diff_loss / diff_lossIV, e2 in those seven and cost / residual / costIV / residualIV) as 'e1 at "
+        "(A,X); e2 at another theta and/or x0; e1 again; restore; e1 again; e1 with theta=None', random walks, the user "
+        "re-assigning model.parameters, two loss objects on one model object, two model instances with the same names, "
+        "copy.deepcopy of a loss object; all four combinations of target_param / target_state; t0 != 0; theta as list / tuple / "
+        "ndarray / numpy scalars; y, x0, t, weights, spread as float or int containers (integer observations for every class).  "
+        "A history case is non-trivial when at least two calls were judged against the reference derivative for the values the "
+        "object currently holds.")
 ASSUMPTIONS = ["integrating the variational (forward sensitivity) system yields the derivative of the flow in the parameters and the "
                "initial values (classical, not in Mathlib): hypothesis `hsens` of grad_is_chain_rule; validated per case against "
                "finite differences of an independent reference",
@@ -40,7 +52,12 @@ ASSUMPTIONS = ["integrating the variational (forward sensitivity) system yields 
                "for Poisson, Gamma, NegBinom",
                "finite differences: Richardson extrapolation of central differences with steps h, h/2, h = 2e-3 max(|u|, 0.05) on the "
                "1e-12 reference (tolerance 1e-4 (1+|fd|)) and h = 1e-2 max(|u|, 0.05) on pygom's own cost (tolerance 1e-3 (1+|fd|) "
-               "+ 1e-7 scale / h, scale = sum of absolute per-entry loss terms: pygom integrates at 1e-10)"]
+               "+ 1e-7 scale / h, scale = sum of absolute per-entry loss terms: pygom integrates at 1e-10)",
+               "history cases: the Lean model takes the gradient and the Jacobian as pure functions of (theta, x0, data, layout); the loss "
+               "object is read as holding the parameter values and initial values it was last given through ANY entry point (constructor, "
+               "cost, costIV, sensitivityIV, ...), parameters outside target_param are the model object's current values "
+               "(specification state machine in losshist.py); diff_loss is judged through the contract sens_to_grad uses: "
+               "weight x diff_loss = d(per-entry loss term)/d(prediction)"]
 TRUSTED = ["harness generator and reference: scipy.integrate.solve_ivp(DOP853), scipy.stats log-densities, Richardson differences",
            "right-hand side of the reference: Lean driver `assemble` output (C01) compiled by losscommon.compile_rhs; hand-written "
            "for catalogue models", "Lean driver JSON codec"]
@@ -100,11 +117,16 @@ def make_cases(rng, tier, budget):
     for i in range(budget["exact"]):
         r = random.Random(rng.getrandbits(64))
         cases.append(_exact_case(r, budget["per_batch"]))
+    shift = 8 * rng.randrange(1000)                 # the systematic part (pairs of entry points) starts somewhere else for every seed
+    for i in range(budget.get("history", 0)):
+        r = random.Random(rng.getrandbits(64))
+        cases.append(LH.gen_history(r, i + shift, HIST_JUDGED))
     return cases
 
 
 def search_cases(rng, tier, budget):
-    return [_grad_case(random.Random(rng.getrandbits(64))) for _ in range(budget["cases"] * 2)]
+    return ([_grad_case(random.Random(rng.getrandbits(64))) for _ in range(budget["cases"] * 2)] +
+            [LH.gen_history(random.Random(rng.getrandbits(64)), i, HIST_JUDGED) for i in range(budget.get("history", 0) * 2)])
 
 
 # --------------------------------------------------------------------------- exact batches
@@ -434,7 +456,117 @@ def run_grad(case):
                        "weights": case["weights"][0], "worst_error_over_tolerance": max(margins)}}
 
 
+# --------------------------------------------------------------------------- history cases (losshist.py)
+
+HIST_JUDGED = ["sensitivity", "gradient", "jac", "sensitivityIV", "jacIV", "diff_loss", "diff_lossIV"]
+
+
+def _fd_points(ev, with_x0):
+    """reference trajectories at the current values and at +-h, +-h/2 in every free variable of the object (parameters in
+    the order of target_param, then - for the IV entry points - initial values in the order of target_state);
+    None when one of them does not exist"""
+    ctx, spec = ev["ctx"], ev["spec"]
+    s = ctx.s
+    fp = spec["tp"] if spec["tp"] is not None else s["params"]
+    fs = (spec["ts"] if spec["ts"] is not None else s["states"]) if with_x0 else []
+    th, x0 = ev["th"], ev["x0"]
+    out, hs = [], []
+    for kind, name in [("p", k) for k in fp] + [("s", k) for k in fs]:
+        j = s["params"].index(name) if kind == "p" else s["states"].index(name)
+        u = th[j] if kind == "p" else x0[j]
+        h = 2e-3 * max(abs(u), 0.05)
+        pts = []
+        for dlt in (h, -h, h / 2, -h / 2):
+            th2, x2 = list(th), list(x0)
+            if kind == "p":
+                th2[j] = u + dlt
+            else:
+                x2[j] = u + dlt
+            t = ctx.traj(th2, x2)
+            if t is None:
+                return None, None
+            pts.append(t)
+        out.append(pts); hs.append(h)
+    return out, hs
+
+
+def judge_history(ev):
+    """sensitivity / gradient / jac / sensitivityIV / jacIV / diff_loss / diff_lossIV against finite differences of the
+    independent reference FOR THE VALUES THE OBJECT CURRENTLY HOLDS.  In the Lean model (Sens.sensToGrad,
+    grad_is_chain_rule) the gradient is a pure function of (theta, x0, data, layout): whatever was called before, and with
+    whatever arguments, may not matter."""
+    d, spec, fn, ctx = ev["d"], ev["spec"], ev["fn"], ev["ctx"]
+    cls = spec["cls"]
+    y, W, spread, idx = d["y"], d["W"], d["spread"], d["idx"]
+    n, q = d["n"], d["p"]
+    base = ctx.traj(ev["th"], ev["x0"])
+    out = []
+
+    def cmp(got, fd, fd_err, what, rel=1e-4):
+        got = np.asarray(got, float).ravel()
+        if got.shape != fd.shape:
+            out.append({"what": "%s of %sLoss has %d entries, expected %d" % (fn, cls, got.size, fd.size), "class": "length",
+                        "detail": "got %s reference %s" % (got.tolist()[:20], fd.tolist()[:20])})
+            return
+        ok_fd = fd_err <= 1e-2 * (1 + np.abs(fd))
+        if not np.all(ok_fd):
+            ev["tags"].append("fd-not-converged:history")
+        tol = rel * (1 + np.abs(fd))
+        bad = ((np.abs(got - fd) > tol) | ~np.isfinite(got)) & ok_fd
+        if np.any(bad):
+            out.append({"what": what, "detail": "got %s reference %s (tolerance %s)" % (got.tolist()[:24], fd.tolist()[:24], np.asarray(tol).tolist()[:24])})
+
+    if fn in ("diff_loss", "diff_lossIV"):
+        # contract used by sens_to_grad:  gradient = sum_i  diff_loss[i] * w[i] * d yhat[i]/d theta
+        yhat = base[:, idx]
+        h = 1e-3 * (yhat if cls in LC.NEEDS_POSITIVE else np.maximum(np.abs(yhat), 1e-2))
+        f = lambda v: LC.ref_terms(cls, y, v, W, spread)
+        fd, err = richardson([f(yhat + h), f(yhat - h), f(yhat + h / 2), f(yhat - h / 2)], h)
+        got = np.asarray(ev["got"], float)
+        if got.size == fd.size:
+            got = got.reshape(fd.shape) * W
+        cmp(got, fd.ravel(), err.ravel(), "weight x %s of %sLoss is not the derivative of the per-entry loss terms in the prediction, at the values the object holds" % (fn, cls))
+        return out
+    iv = fn in ("sensitivityIV", "jacIV")
+    trs, hs = _fd_points(ev, iv)
+    if trs is None:
+        ev["tags"].append("unjudged:reference-failed-or-outside-domain")
+        return None
+    if cls in LC.NEEDS_POSITIVE and min(t[:, idx].min() for pts in trs for t in pts) < 0.02:
+        ev["tags"].append("unjudged:reference-failed-or-outside-domain")
+        return None
+    if fn in ("jac", "jacIV"):
+        nv = len(trs)
+        Jref = np.zeros((n, q * nv)); Jerr = np.zeros((n, q * nv))
+        for b in range(nv):
+            d_, e_ = richardson([t[:, idx] for t in trs[b]], hs[b])
+            for a in range(q):
+                Jref[:, a + b * q] = d_[:, a]; Jerr[:, a + b * q] = e_[:, a]
+        J = np.asarray(ev["got"], float)
+        if J.shape != Jref.shape:
+            out.append({"what": "%s has shape %s, expected %s" % (fn, J.shape, Jref.shape), "class": "shape", "detail": ""})
+        else:
+            cmp(J, Jref.ravel(), Jerr.ravel(), "%s is not the derivative of the reference trajectory in the free variables (column a + b q = observed state a, free variable b) "
+                "at the values the object holds" % fn)
+        return out
+    cost_of = lambda t: LC.ref_cost(cls, y, t[:, idx], W, spread)
+    g, e = [], []
+    for pts, h in zip(trs, hs):
+        d_, er = richardson([cost_of(t) for t in pts], h)
+        g.append(d_); e.append(er)
+    cmp(ev["got"], np.array(g), np.array(e), "%s of %sLoss is not the derivative of the reference cost in the free variables, in the order supplied, at the values the object holds" % (fn, cls))
+    return out
+
+
+def run_history(case):
+    r = LH.execute(case, judge_history, HIST_JUDGED)
+    r["sample"] = {"kind": "history", "family": case["family"], "ops": [(o.get("fn") or o["op"]) for o in case["ops"]]}
+    return r
+
+
 def run_case(case):
     if case["kind"] == "exact":
         return run_exact(case)
+    if case["kind"] == "history":
+        return run_history(case)
     return run_grad(case)
